@@ -66,7 +66,11 @@ CHECKS.append(chk("C14", "fault_enumeration",
     "A generated committed prefix, then one target statement on a fresh handle (full/point/descending SELECT, autocommit write, transaction, s3db_refresh, s3db_version, s3db_changes read, s3db_vacuum, CREATE of a further table; read-only handles keep several versions unmerged so merges run under fault). A reference run gives result and request count R; the statement is re-run for every p<R with a single transport error at p and with persistent failure from p on, and once with the connection deadline in the past: it must return an error or exactly the reference result, stay within 50R+1000 requests (no retry loop; a panic kills the worker and is reported from the journal), and after the fault clears s3db_refresh on the same connection and a fresh connection must agree, show exactly the contents before or after the statement (after if it reported success) and accept a follow-up write that a fresh open sees.",
     "property-based generation of programs (rapid) + exhaustive single/persistent fault enumeration per statement through the fake object store"))
 
-for pid in ["C03","C05","C15","C17","C18","C19","C20"]:
+CHECKS.append(chk("C05", "exploration",
+    "State-machine generation on one connection plus an observer connection: autocommit statements and BEGIN..COMMIT / ROLLBACK / COMMIT-with-injected-storage-fault transactions (multi-row, duplicate-key and NULL-key statements inside), with explicit per-statement write_time or none, on tables pre-filled to several tree heights. Oracles: reads-own-writes against the reference model after every statement; the observer (refresh + scan) equals the committed model before and after the transaction ends; a rollback of either kind restores rows, s3db_version and the set of version objects (explicit rollback: zero PUT/DELETE); a COMMIT adds at most one version (exactly one if rows changed); entry-level timestamps of a transaction without write_time are one instant and write_time reads NULL again. Open findings K2/K3/K4 are steered away from (counted) and reported from their witnesses.",
+    "stateful property-based testing (rapid) against a reference model + request-log and bucket-listing invariants + injected commit faults"))
+
+for pid in ["C03","C15","C17","C18","C19","C20"]:
     NOT_YET[pid] = "check under construction in this session (designed in DESIGN.md section 5); not claimed until its quick tier runs clean on the unchanged tree"
 
 MANIFEST = {
